@@ -94,6 +94,11 @@ func specOf(r resource.Resource) string {
 // ResStr is the canonical form of a resource (same as Cosi.Driver.Store.resStr).
 func ResStr(r resource.Resource) string {
 	md := r.Metadata()
+
+	if resource.IsTombstone(r) {
+		return fmt.Sprintf("%s/%s/%s@%s|o=%s|%s|f=|l=|c=0|u=0|s=<tombstone>", md.Namespace(), md.Type(), md.ID(), verStr(md.Version()), md.Owner(), md.Phase())
+	}
+
 	lab := md.Labels().Raw()
 	ks := make([]string, 0, len(lab))
 
